@@ -1,1 +1,11 @@
 package verifmain
+
+// Export shim for the verification harness (copied next to the instrumented
+// copy of cmd/outline-ss-server, which is renamed to package verifmain in the
+// scratch tree only). Nothing here exists in /repo.
+
+func NewServerMetricsForVerif() *serverMetrics { return newPrometheusServerMetrics() }
+
+func (s *OutlineServer) LoadConfigForVerif(filename string) error { return s.loadConfig(filename) }
+
+func (s *OutlineServer) StopForVerif() error { return s.Stop() }
